@@ -108,7 +108,7 @@ def prepare():
             replace[os.path.join(REPO, pkg, "zz_verif_" + m.group(2) + ".go")] = os.path.join(GO_DIR, "shims", extra)
     # harness packages
     for d in sorted(os.listdir(GO_DIR)):
-        if d.startswith("harness") or d == "factgen":
+        if d.startswith("harness"):
             for f in sorted(os.listdir(os.path.join(GO_DIR, d))):
                 if f.endswith(".go"):
                     replace[os.path.join(REPO, "verif" + d, f)] = os.path.join(GO_DIR, d, f)
